@@ -101,6 +101,100 @@ fn gen_json_schema(rng: &mut Rng, depth: usize) -> serde_json::Value {
     }
 }
 
+
+/// a sub-schema with no instance, written so that each part is satisfiable on its own
+fn gen_empty_schema(rng: &mut Rng) -> serde_json::Value {
+    use serde_json::json;
+    match rng.below(8) {
+        0 => json!({"allOf": [{"const": "a"}, {"const": "b"}]}),
+        1 => json!({"allOf": [{"enum": ["x", "y"]}, {"enum": ["z", "w"]}]}),
+        2 => json!({"allOf": [{"type": "string", "pattern": "^a+$"}, {"type": "string", "pattern": "^b+$"}]}),
+        3 => json!({"allOf": [{"enum": ["x", "yy"]}, {"type": "string", "minLength": 3}]}),
+        4 => json!({"type": "string", "pattern": "^ab+$", "maxLength": 1}),
+        5 => json!({"allOf": [{"const": "ab"}, {"type": "string", "pattern": "^b"}]}),
+        6 => json!({"allOf": [{"enum": ["k", 1]}, {"enum": ["m", 2]}]}),
+        _ => json!({"allOf": [{"const": "a"}, {"enum": ["b", "c"]}, {"type": "string"}]}),
+    }
+}
+
+/// a satisfiable schema with an unsatisfiable part in an optional position (optional property,
+/// array items with minItems 0, one branch of anyOf)
+fn gen_optional_empty_schema(rng: &mut Rng) -> serde_json::Value {
+    use serde_json::json;
+    let e = gen_empty_schema(rng);
+    match rng.below(5) {
+        0 => json!({"type": "object", "properties": {"n": {"type": "integer", "minimum": 0, "maximum": 9}, "t": e}, "required": ["n"], "additionalProperties": false}),
+        1 => json!({"type": "object", "properties": {"t": e, "n": {"type": "boolean"}}, "additionalProperties": false}),
+        2 => json!({"type": "array", "items": e, "maxItems": 2}),
+        3 => json!({"anyOf": [e, {"type": "null"}]}),
+        _ => json!({"type": "object", "properties": {"k": {"anyOf": [e, {"const": 0}]}, "t": gen_empty_schema(rng)}, "required": ["k"], "additionalProperties": false}),
+    }
+}
+
+/// breadth-first exploration of every state reachable through mask-allowed bytes (up to `max_states`
+/// states and `max_depth` bytes): no state may be a dead end
+fn explore_case(out: &mut Out, tg: TopLevelGrammar, descr: &str, kind: &str, max_states: usize, max_depth: usize) {
+    let (wb, eosb) = single_byte_vocab();
+    let envb = make_env(&wb, eosb, false);
+    let Ok(m0) = mk(&envb, tg) else {
+        out.count("grammar_rejected", 1);
+        return;
+    };
+    let mut queue: std::collections::VecDeque<(Matcher, Vec<u8>)> = std::collections::VecDeque::new();
+    queue.push_back((m0, vec![]));
+    let mut seen = 0usize;
+    while let Some((m, hist)) = queue.pop_front() {
+        if seen >= max_states {
+            break;
+        }
+        seen += 1;
+        let mut c = m.deep_clone();
+        if c.is_stopped() {
+            continue;
+        }
+        let acc = c.is_accepting().unwrap_or(false);
+        let ml: Vec<u32> = match c.compute_mask() {
+            Ok(mask) => mask_list(&mask),
+            Err(_) => {
+                if !acc {
+                    out.violation(&format!("compute_mask failed ({:?}) in a non-accepting state after {:?} [{kind}]", c.stop_reason(), String::from_utf8_lossy(&hist)), descr.to_string());
+                    break;
+                }
+                continue;
+            }
+        };
+        if ml.is_empty() && !acc {
+            out.violation(&format!("empty mask returned after {:?} [{kind}]", String::from_utf8_lossy(&hist)), descr.to_string());
+            break;
+        }
+        let mut budget = 3000;
+        if let Some(false) = completion_within(&m, 48, &mut budget) {
+            out.violation(&format!("dead end: after {:?} the state is not accepting and no byte string of length <= 48 completes it (exhaustive search) [{kind}]", String::from_utf8_lossy(&hist)), descr.to_string());
+            break;
+        }
+        out.count("states_checked", 1);
+        if hist.len() >= max_depth {
+            continue;
+        }
+        // all allowed bytes when few, otherwise a spread of them
+        let all: Vec<u32> = ml.into_iter().filter(|&t| t < 256).collect();
+        // optional whitespace multiplies the states without changing them: follow it only when nothing else is allowed
+        let solid: Vec<u32> = all.iter().copied().filter(|&t| !matches!(t as u8, b' ' | b'\n' | b'\t' | b'\r')).collect();
+        let bytes = if solid.is_empty() || hist.last().map(|&b| b == b'"' || b.is_ascii_alphanumeric()).unwrap_or(false) && hist.iter().filter(|&&b| b == b'"').count() % 2 == 1 { all } else { solid };
+        let step = if bytes.len() > 8 { bytes.len() / 4 } else { 1 };
+        for &t in bytes.iter().step_by(step.max(1)) {
+            let mut d = c.deep_clone();
+            if d.consume_token(t).is_ok() {
+                let mut h = hist.clone();
+                h.push(t as u8);
+                queue.push_back((d, h));
+            }
+        }
+    }
+    out.count(kind, 1);
+    out.case(tagged("noop", vec![sym("explore"), int(seen)]), tagged("noop", vec![sym("explore"), int(seen)]), seen > 1);
+}
+
 fn walk_case(rng: &mut Rng, out: &mut Out, env: &TokEnv, ws: &[Vec<u8>], eos: u32, tg: TopLevelGrammar, descr: &str, kind: &str) {
     let Ok(mut m) = mk(env, tg.clone()) else {
         out.count("grammar_rejected", 1);
@@ -181,7 +275,17 @@ pub fn run(rng: &mut Rng, out: &mut Out, tier: &str) {
         let mut r = rng.fork(i as u64);
         let (ws, eos) = if r.chance(1, 3) { single_byte_vocab() } else { gen_engine_vocab(&mut r, 30) };
         let env = make_env(&ws, eos, false);
-        if i % 5 == 4 {
+        if i % 10 == 7 {
+            // an unsatisfiable sub-schema in an optional position: every reachable state explored
+            let mut sc = gen_optional_empty_schema(&mut r);
+            // without optional whitespace the exhaustive completion search is conclusive (a state that
+            // allows whitespace for ever cannot be told from a dead end by a bounded search)
+            if r.chance(3, 4) {
+                sc["x-guidance"] = serde_json::json!({"whitespace_flexible": false});
+            }
+            explore_case(out, TopLevelGrammar::from_json_schema(sc.clone()), &sc.to_string(), "json_optional_empty", 150, 14);
+            walk_case(&mut r, out, &env, &ws, eos, TopLevelGrammar::from_json_schema(sc.clone()), &sc.to_string(), "json_optional_empty_walk");
+        } else if i % 5 == 4 {
             // a terminal built with & / ~ whose sides can each continue while their intersection cannot
             let mut t = String::new();
             gen_rx_tension(&mut r).to_lark_term(&mut t);
